@@ -45,7 +45,7 @@ def collect(P):
     # SegmentUpdater::save_metas: the whole body is guarded by `if self.is_alive() {` (a task of a killed updater must not
     # rewrite meta.json: Writer.v save_metas_guarded / event EStaleSave; WriterObs.v save_metas_guard_pinned)
     text = P.src("src/indexer/segment_updater.rs")
-    m = re.search(r"pub fn save_metas\(\s*&self,[^{]*\{\s*(if self\.is_alive\(\) \{)?", text or "")
+    m = re.search(r"pub fn save_metas\(\s*&self,[^{]*\{\s*(?:let _\w+ = self\s*\.save_metas_lock\s*\.lock\(\)[^;]*;\s*)?(if self\.is_alive\(\) \{)?", text or "")
     if not m:
         P.broken.append({"pin": "WRITER_SAVE_METAS_GUARDED", "file": "src/indexer/segment_updater.rs", "why": "SegmentUpdater::save_metas not found"})
     else:
